@@ -117,6 +117,7 @@ def typed_matches(ty: Ty, x, depth=0, strict=False):
     if k == 'pattern':
         return isinstance(x, re.Pattern) and type(x.pattern) is (bytes if ty.x.get('of') == 'bytes' else str)
     if k in ('sub', 'dc'): return type(x) is py_class(ty)
+    if k == 'cc': return type(x).__name__ == 'CountryCode'
     if k == 'enum': return isinstance(x, py_class(ty))
     if k == 'lit': return any(type(x) is type(v) and x == v for v in ty.x['vals'])
     if k == 'list': return type(x) is list and all(typed_matches(ty.a[0], e, depth + 1, strict) for e in x[:4])
